@@ -691,6 +691,59 @@ func runHistory(cfg *config, id int, r *hx.Rng, o histOpts) {
 	cfg.st.Add("statements", o.stmts)
 }
 
+// runDeep grows one narrow table far enough for the tree to split an internal node (291 leaves,
+// about 1200 rows), with a second table and the catalog sharing the file, then keeps going
+// through updates, deletes, a flush, a reload and a crash with recovery.
+func runDeep(cfg *config, id int, r *hx.Rng, rows int) {
+	cfg.tr.Case(id)
+	d := &rdb{cfg: cfg, name: fmt.Sprintf("deep%d", id)}
+	defer d.close()
+	d.createdb()
+	a := &gtable{name: "t1", cols: []gcol{{"c0", "int"}}}
+	b := &gtable{name: "t2", cols: []gcol{{"c0", "int"}, {"c1", "varchar"}}}
+	d.stmt(createText(a))
+	d.stmt(createText(b))
+	total := 0
+	for total < rows {
+		n := r.Range(20, 70)
+		var rs [][]interface{}
+		for k := 0; k < n; k++ {
+			rs = append(rs, []interface{}{int64(total + k)})
+		}
+		d.stmt(insertText(a, rs, false))
+		total += n
+		switch r.Intn(12) {
+		case 0:
+			d.stmt(insertText(b, [][]interface{}{genRowValues(r, b, true), genRowValues(r, b, false)}, true))
+		case 1:
+			d.stmt(fmt.Sprintf("UPDATE t1 SET c0 = %d WHERE c0 = %d", -r.Range(1, 9), r.Intn(total)))
+		case 2:
+			d.stmt(fmt.Sprintf("DELETE FROM t1 WHERE c0 = %d", r.Intn(total)))
+		case 3:
+			d.flush()
+		case 4:
+			d.reopen()
+		case 5:
+			d.crash()
+			if d.recoverDB() != "ok" {
+				return
+			}
+		}
+	}
+	d.selectEvery()
+	d.dump()
+	d.roots()
+	d.crash()
+	if d.recoverDB() == "ok" {
+		d.stmt(insertText(a, [][]interface{}{{int64(-1)}}, false))
+		d.selectEvery()
+		d.dump()
+		d.roots()
+	}
+	cfg.st.Seen("deep", true)
+	cfg.st.Add("statements", total/45)
+}
+
 func runDB(cfg *config) {
 	wdog = hx.NewWatchdog(cfg.tr, 30*time.Second)
 	mode := "c01"
@@ -709,6 +762,13 @@ func runDB(cfg *config) {
 	switch mode {
 	case "c01":
 		n := 12 * cfg.scale
+		// one history deep enough for an internal-node split (two in the thorough tier)
+		id++
+		runDeep(cfg, id, r.Fork(), 1400)
+		if cfg.tier == "thorough" {
+			id++
+			runDeep(cfg, id, r.Fork(), 2900)
+		}
 		for i := 0; i < n; i++ {
 			id++
 			rr := r.Fork()
